@@ -279,7 +279,12 @@ def ill_conditioned(rng, count=24, kind="ill-conditioned"):
         p1 = rng.choice([[], [[sp[2], 1]]])
         p2 = ([[sp[2], 2]] if p1 else []) if exact else rng.choice([[], [[sp[2], 1]], [[sp[2], 2]]])
         sides = [([[sp[0], c[0][0]], [sp[1], c[0][1]]], p1), ([[sp[0], c[1][0]], [sp[1], c[1][1]]], p2)]
-        if rng.random() < 0.5:
+        if k % 4 == 1:
+            # both reactions leave ONE common complex (the zero complex, or one molecule of the third species): a single linkage class
+            # whose two difference vectors are almost (or exactly) parallel — the CLASS rank needs the exact arithmetic too
+            src = [] if k % 8 == 1 else [[sp[2], 1]]
+            sides = [(src, sides[0][0]), (src, sides[1][0])]
+        elif rng.random() < 0.5:
             sides.append((sides[0][1], sides[0][0]))
         rng.shuffle(sides)
         out.append(dict(kind=kind, rxns=_ids(sides, rng, "gen"), iso=[], view=rng.choice(["hyper", "bip_int"])))
